@@ -220,6 +220,41 @@ func (r *Report) finish(evdir string, writeEvidence bool) int {
 	if total == 0 && r.Prop != "all" {
 		emitViolation("no-obligations", "vacuity: the check generated zero obligations", nil)
 	}
+	// thorough tier: the contracts of this property's functions, compiled into
+	// run-time checks, are exercised on the program corpora with the real code.
+	// A failing postcondition/assertion/invariant, a violated precondition (also
+	// an assumed one) or a Go panic inside one of these functions is a violation
+	// with the input attached.
+	sweep := map[string]any{}
+	if r.Tier == "thorough" && os.Getenv("HVC_NOSWEEP") == "" && r.Prop != "all" {
+		names := map[string]bool{}
+		for _, u := range r.Results {
+			n := u.Func
+			if i := strings.Index(n, "["); i > 0 && strings.HasSuffix(n, "]") && !strings.Contains(n, "[\"") {
+				n = n[:i]
+			}
+			names[n] = true
+		}
+		hits, ran, err := racSweep(r.p, names)
+		sweep["inputs"] = ran
+		if err != nil {
+			sweep["error"] = err.Error()
+			emitViolation("runtime-sweep", "the run-time checked build did not run: "+firstLineOf(err.Error()), nil)
+		}
+		sweep["failures"] = len(hits)
+		for _, h := range hits {
+			violations++
+			os.MkdirAll(replayDir, 0o755)
+			fn := strings.NewReplacer("/", "_", " ", "_", "#", "-", ":", "-", "*", "", "(", "", ")", "").Replace("sweep-" + h.Line)
+			if len(fn) > 120 {
+				fn = fn[:120]
+			}
+			path := filepath.Join(replayDir, fn+".json")
+			data, _ := json.MarshalIndent(map[string]any{"property": r.Prop, "obligation": h.Line, "reason": "run-time check failed on the real code", "input": h.Input, "output": h.All}, "", " ")
+			os.WriteFile(path, data, 0o644)
+			fmt.Printf("VIOLATION property=%s replay=%s obligation=%s reason=run-time-check-failed-on-real-code\n", r.Prop, path, strings.ReplaceAll(h.Line, " ", "_"))
+		}
+	}
 	fmt.Printf("hvc: property=%s tier=%s units=%d obligations=%d discharged=%d (trivial %d) known-findings=%d violations=%d wall=%.1fs\n",
 		r.Prop, r.Tier, len(r.Results), total, discharged, trivial, len(knownHits), violations, r.Wall)
 	if writeEvidence && r.Prop != "all" {
@@ -256,6 +291,7 @@ func (r *Report) finish(evdir string, writeEvidence bool) int {
 				"trivially_true_obligations": trivial,
 				"unmechanised_lemmas":        unmechanised[r.Prop],
 				"bounded_checks":             []string{},
+				"runtime_sweep":              sweep,
 				"explanation":                "weakest-precondition style VCs generated by hvc from the current /repo tree (contracts in zz_contracts_verif.go), one SMT query per obligation",
 			},
 			"assumptions": append(append([]string{}, trustedBase...), unmechanised[r.Prop]...),
